@@ -10,6 +10,10 @@ pub open spec fn state_inv(s: PeerState) -> bool {
             && s.s_prove_state().unwrap().last_state.header.s_header().s_number() <= 0x4000_0000_0000_0000)
     &&& (s.s_request().is_some() ==> s.s_request().unwrap().last_state.header.td_ok())
 }
+// C17: evidence that this handler took the write lock of Peers::matched_blocks - the lock that serialises every mutation of the
+// sync progress (script set, filter progress, matched-block records, index).  Timeless: that the guard is still alive is Rust's
+// scoping (not verified here).
+pub uninterp spec fn mb_locked() -> bool;
 pub struct Peers { pub x: u8 }
 pub struct RwLockMB { pub x: u8 }
 pub struct MBGuardRes { pub x: u8 }
@@ -20,7 +24,7 @@ impl RwLockMB {
 }
 impl MBGuardRes {
     #[verifier::external_body]
-    pub fn expect(self, msg: &str) -> (r: MBGuard) { unimplemented!() }   // lock poisoning not modelled (R13)
+    pub fn expect(self, msg: &str) -> (r: MBGuard) ensures mb_locked() { unimplemented!() }   // lock poisoning not modelled (R13)
 }
 impl MBGuard {
     #[verifier::external_body]
